@@ -2,7 +2,7 @@
 From Coq Require Import List NArith ZArith Bool Arith String.
 Import ListNotations.
 Require Import Emit EmitLemmas.
-Require EmitSafe EmitChars EmitBreaks.
+Require EmitSafe EmitChars EmitBreaks EmitFrame EmitIndent.
 
 (* KIND C15_options_normalised : U *)
 (* for EVERY requested canonical/allow_unicode/indent/width/line_break: the effective indent is the requested one iff it is between 2 and 9, else 2;
@@ -28,6 +28,50 @@ Eval vm_compute in "ASSUME:C15_indent_stack_multiples"%string. Print Assumptions
 (* KIND C15_indent_stack_initial : U *)
 Theorem C15_indent_stack_initial : forall canon uni ind width lb, ind_ok (init canon uni ind width lb).
 Proof. exact l_init_ind_ok. Qed.
+
+(* KIND C15_indent_is_a_multiple_of_the_effective_indent : U *)
+(* the whole emitter, EVERY event list and option set, after every event: the current indent and every saved indent is a multiple of the effective
+   indent (the requested one when it lies between 2 and 9, otherwise 2).  Proofs/EmitFrame.v (generated from Model/Emit.v, one lemma per function,
+   46 of them) is a frame theorem - indent and indents are written by increase_indent and pop_indent only, the option fields by nothing - so any
+   predicate of these fields that those two functions keep is kept by every function of the model *)
+Theorem C15_indent_is_a_multiple_of_the_effective_indent : forall evs canon au ind width lb s',
+  emit_state evs (init canon au ind width lb) = inl s' ->
+  best_indent s' = EmitIndent.effective_indent ind /\ EmitIndent.mult (EmitIndent.effective_indent ind) (indent s') /\
+  Forall (EmitIndent.mult (EmitIndent.effective_indent ind)) (indents s').
+Proof. exact EmitIndent.indent_is_a_multiple_of_the_effective_indent. Qed.
+Eval vm_compute in "ASSUME:C15_indent_is_a_multiple_of_the_effective_indent"%string. Print Assumptions C15_indent_is_a_multiple_of_the_effective_indent.
+(* KIND C15_every_step_keeps_the_indent_invariant : U *)
+(* ... and not only between events: handling one event, with everything it writes, keeps the invariant from ANY state that has it *)
+Theorem C15_every_step_keeps_the_indent_invariant : forall b e s, EmitIndent.QInd b (EmitFrame.fr s) ->
+  match emit1 e s with Ok (_, s') => EmitIndent.QInd b (EmitFrame.fr s') | _ => True end.
+Proof. exact EmitIndent.every_step_keeps_the_indent_invariant. Qed.
+Eval vm_compute in "ASSUME:C15_every_step_keeps_the_indent_invariant"%string. Print Assumptions C15_every_step_keeps_the_indent_invariant.
+(* KIND C15_write_indent_lands_on_the_indent : U *)
+(* write_indent - the only place where the indentation of a line is written - leaves the column exactly at the current indent (0 when there is
+   none) and changes neither the indent, the saved indents nor the effective indent: the lines that start a block entry start at a multiple *)
+Theorem C15_write_indent_lands_on_the_indent : forall s s', write_indent s = Ok (tt, s') ->
+  column s' = match indent s with Some i => i | None => 0 end /\ indent s' = indent s /\ indents s' = indents s /\ best_indent s' = best_indent s.
+Proof. exact EmitIndent.write_indent_lands_on_the_indent. Qed.
+Eval vm_compute in "ASSUME:C15_write_indent_lands_on_the_indent"%string. Print Assumptions C15_write_indent_lands_on_the_indent.
+(* KIND C15_options_never_change : U *)
+(* the formatting options an emitter was created with are not changed by any event *)
+Theorem C15_options_never_change : forall evs s s', emit_state evs s = inl s' ->
+  canonical s' = canonical s /\ allow_unicode s' = allow_unicode s /\ best_indent s' = best_indent s /\ best_width s' = best_width s /\ best_lb s' = best_lb s.
+Proof. exact EmitIndent.options_never_change. Qed.
+Eval vm_compute in "ASSUME:C15_options_never_change"%string. Print Assumptions C15_options_never_change.
+(* KIND C15_indent_example : F *)
+(* indent=4;  k: {a: [b, b]}  in block style is written "k:\n    a:\n    - b\n    - b": while the items are written the current indent is 4 and None, 0, 4 are saved *)
+Example C15_indent_example :
+  let sc v := EScalar None None true false v None in
+  let evs := [EStreamStart; EDocStart false None []; EMapStart None None true false; sc [107%N]; EMapStart None None true false; sc [97%N];
+              ESeqStart None None true false; sc [98%N]; sc [98%N]] in
+  match emit_state evs (init false false (Some 4) None [10%N]) with
+  | inl s' => indent s' = Some 4 /\ indents s' = [None; Some 0; Some 4] /\
+              List.concat (rev (out s')) = [107; 58; 10; 32; 32; 32; 32; 97; 58; 10; 32; 32; 32; 32; 45; 32; 98; 10; 32; 32; 32; 32; 45; 32; 98]%N /\
+              EmitIndent.effective_indent (Some 4) = 4 /\ EmitIndent.effective_indent (Some 12) = 2 /\ EmitIndent.effective_indent (Some 1) = 2 /\
+              EmitIndent.effective_indent None = 2
+  | inr _ => False end.
+Proof. exact EmitIndent.indent_example. Qed.
 
 (* KIND C15_ascii_only_without_allow_unicode : U *)
 (* for EVERY list of events - well-formed or not, any scalar contents, tags, anchors, %TAG directives - and every option set with allow_unicode
